@@ -16,6 +16,7 @@ import traceback
 
 HERE = os.path.dirname(os.path.dirname(os.path.abspath(__file__)))
 REPO = os.environ.get('JEDI_REPO', '/repo')
+EVIDENCE_DIR = os.environ.get('VERIF_EVIDENCE_DIR', os.path.join(HERE, 'evidence'))
 
 
 def load_property(prop):
@@ -128,12 +129,18 @@ def run_check(prop, tier, seed):
                              % (c.id, len(fr.obligations), c.expect_obligations))
         V = fr.verifier
         terms = {}
+        extras = []
         if V is not None and c.replay is not None and V.entry is not None:
             for name, expr in (c.witness or {}).items():
                 try:
-                    v = V.eval_spec(expr, V.entry.fork())
-                    if hasattr(v, 'z'):
-                        terms[name] = v
+                    est = V.entry.fork()
+                    n0 = len(est.pc)
+                    v = V.eval_spec(expr, est)
+                    if not hasattr(v, 'z'):
+                        from .values import type_of, as_sv
+                        v = as_sv(v, type_of(v))
+                    terms[name] = v
+                    extras.extend(est.pc[n0:])
                 except Unsupported:
                     pass
         fr.terms = terms
@@ -143,7 +150,7 @@ def run_check(prop, tier, seed):
             it.ob = o
             it.fr = fr
             items.append(it)
-            smt2 = obligation_smt2(fr.axioms, o, {k: v.z for k, v in terms.items()})
+            smt2 = obligation_smt2(fr.axioms + extras, o, {k: v.z for k, v in terms.items()})
             it.smt_head = smt2[:600]
             jobs.append(smt2)
             job_items.append(it)
@@ -154,16 +161,12 @@ def run_check(prop, tier, seed):
                 if kind in seen:
                     continue
                 seen.add(kind)
-                s = z3.Solver()
-                for a in fr.axioms:
-                    s.add(a)
-                for pc in st.pc:
-                    s.add(pc)
                 it = Item('%s/cover:%s' % (c.id, kind), c.id, 'cover', 'exit %s reachable under requires+axioms' % kind)
                 it.expect = 'sat'
                 it.fr = fr
                 covers.append(it)
-                jobs.append(s.to_smt2())
+                from .smt import exprs_to_smt2
+                jobs.append(exprs_to_smt2(list(fr.axioms) + list(st.pc)))
                 job_items.append(it)
             if not V.exits:
                 failures.append('%s: no exit path at all (vacuous)' % c.id)
@@ -173,13 +176,8 @@ def run_check(prop, tier, seed):
             for (lid, label, axioms, pc, goal) in lem(reg):
                 it = Item('%s/lemma:%s' % (prop, lid), prop + '.lemma', 'lemma', label)
                 items.append(it)
-                s = z3.Solver()
-                for a in axioms:
-                    s.add(a)
-                for p in pc:
-                    s.add(p)
-                s.add(z3.Not(goal))
-                smt2 = s.to_smt2()
+                from .smt import exprs_to_smt2
+                smt2 = exprs_to_smt2(list(axioms) + list(pc) + [z3.Not(goal)])
                 it.smt_head = smt2[:600]
                 jobs.append(smt2)
                 job_items.append(it)
@@ -211,6 +209,44 @@ def run_check(prop, tier, seed):
         it.values = r.get('values')
         it.values_sexpr = r.get('values_sexpr')
         solver_cpu += r['time']
+    # refutation search for obligations neither solver decided: a candidate input from a
+    # weakened query or from the contract's witness library counts only if the real code,
+    # run on it, violates the executable contract (replay verdict `confirmed`)
+    os.makedirs(os.path.join(HERE, 'replays'), exist_ok=True)
+    unknown_items = [it for it in items if it.result == 'unknown' and it.ob is not None
+                     and it.fr.contract.replay is not None]
+    if unknown_items:
+        from .smt import weakened_smt2
+        wjobs = [weakened_smt2(it.fr.axioms, it.ob, {k: v.z for k, v in it.fr.terms.items()})
+                 for it in unknown_items]
+        wres = discharge(wjobs, timeout_s=min(timeout, 10))
+        tried_library = set()
+        for it, r in zip(unknown_items, wres):
+            solver_cpu += r['time']
+            cands = []
+            if r['result'] == 'sat':
+                it2 = Item(it.id, it.cid, it.kind, it.label)
+                it2.fr = it.fr
+                it2.values = r.get('values')
+                it2.values_sexpr = r.get('values_sexpr')
+                inp = decode_inputs(it2)
+                if inp is not None:
+                    cands.append(('weakened-query model', inp))
+            if it.cid not in tried_library:
+                tried_library.add(it.cid)
+                for w in it.fr.contract.witness_library:
+                    cands.append(('witness library', w))
+            for origin, inp in cands:
+                path = os.path.join(HERE, 'replays', 'candidate.json')
+                with open(path, 'w') as f:
+                    json.dump({'property': prop, 'obligation': it.id, 'contract': it.cid, 'inputs': inp}, f,
+                              default=repr)
+                res = run_replay(path)
+                if res.get('verdict') == 'confirmed':
+                    it.result = 'sat'
+                    it.backend = 'replay(%s)' % origin
+                    it.refuted_by = {'origin': origin, 'inputs': inp, 'replay': res}
+                    break
     # vacuity
     for it in covers:
         if it.result == 'unsat':
@@ -314,8 +350,8 @@ def run_check(prop, tier, seed):
         'wall_s': round(wall, 2),
         'violations': len(violations),
     }
-    os.makedirs(os.path.join(HERE, 'evidence'), exist_ok=True)
-    with open(os.path.join(HERE, 'evidence', prop + '.json'), 'w') as f:
+    os.makedirs(EVIDENCE_DIR, exist_ok=True)
+    with open(os.path.join(EVIDENCE_DIR, prop + '.json'), 'w') as f:
         json.dump(ev, f, indent=1, default=repr)
     for line in known_lines:
         print(line)
@@ -372,6 +408,9 @@ def write_replay(prop, it, module):
         data['kind_of_check'] = 'bounded'
         data['concrete'] = it.concrete
         suffix = ''
+    elif getattr(it, 'refuted_by', None) is not None:
+        data['inputs'] = it.refuted_by['inputs']
+        data['found_by'] = it.refuted_by['origin']
     else:
         inputs = decode_inputs(it)
         data['inputs'] = inputs
